@@ -224,6 +224,8 @@ type vCfg struct {
 	faultSize  bool // persistent: the queue-size snapshot cannot be written (persistentQueue.Shutdown returns an error when sized by items)
 	faultClose bool // persistent: client.Close returns an error
 	splitIDs   bool // split family: ids in the log are item ids 10r+j; the model's ids are the request ids r
+	signal     int  // 0 logs, 1 traces, 2 metrics (obs-report sender and queue telemetry differ per signal)
+	timeout    bool // timeout sender enabled (one hour; it only adds a deadline to the export context)
 	direct     bool // neither sending queue nor batcher: Send runs the sender chain on the caller's goroutine
 	noqueue    bool // deprecated: WithBatcher without a queue = memory queue, wait_for_result, blocking, one consumer
 	// stress schedules only
@@ -343,6 +345,10 @@ func (h *vRun) push(_ context.Context, req request.Request) error {
 	} else if !auto {
 		o = <-c.gate
 	}
+	throttled := o == 3 // a transient failure that asks for a (long) delay: retry_sender.go NewThrottleRetry
+	if throttled {
+		o = 1
+	}
 	h.mu.Lock()
 	h.events = append(h.events, vEvent{kind: 1, ids: ids, out: o, phase: h.phase})
 	for k, x := range h.inflight {
@@ -354,6 +360,9 @@ func (h *vRun) push(_ context.Context, req request.Request) error {
 	h.mu.Unlock()
 	switch o {
 	case 1:
+		if throttled {
+			return NewThrottleRetry(errVTransient, time.Hour)
+		}
 		return errVTransient
 	case 2:
 		return consumererror.NewPermanent(errors.New("permanent failure"))
@@ -453,7 +462,7 @@ func vNewRun(cfg vCfg, st *vStorage, auto bool) (*vRun, error) {
 	}
 	opts := []Option{
 		WithQueueBatchSettings(QueueBatchSettings[request.Request]{Encoding: vEnc{}, Sizers: sizers}),
-		WithTimeout(TimeoutConfig{Timeout: 0}),
+		WithTimeout(TimeoutConfig{Timeout: map[bool]time.Duration{false: 0, true: time.Hour}[cfg.timeout]}),
 		WithShutdown(func(context.Context) error { h.log(3, nil, 0); return nil }),
 	}
 	flush := time.Duration(0)
@@ -498,7 +507,8 @@ func vNewRun(cfg vCfg, st *vStorage, auto bool) (*vRun, error) {
 		opts = append(opts, WithBatcher(BatcherConfig{Enabled: true, FlushTimeout: flush,
 			SizeConfig: SizeConfig{Sizer: request.SizerTypeItems, MinSize: int64(cfg.min), MaxSize: int64(cfg.max)}}))
 	}
-	be, err := NewBaseExporter(exportertest.NewNopSettings(exportertest.NopType), pipeline.SignalLogs, h.push, opts...)
+	signal := []pipeline.Signal{pipeline.SignalLogs, pipeline.SignalTraces, pipeline.SignalMetrics}[cfg.signal%3]
+	be, err := NewBaseExporter(exportertest.NewNopSettings(exportertest.NopType), signal, h.push, opts...)
 	if err != nil {
 		return nil, err
 	}
@@ -631,11 +641,12 @@ func vBatchTimer(be *BaseExporter) (t *time.Timer) {
 }
 
 type vSched struct {
-	split  bool // oracle-only schedule of the split family
-	term   string
-	racy   bool
-	failed bool
-	abort  bool // a deadline expired: goroutines of this schedule may linger, later schedules would be unreliable
+	complete bool // the schedule ran to its end: term is a full observation (also when the oracle failed)
+	split    bool // schedule of the split family
+	term     string
+	racy     bool
+	failed   bool
+	abort    bool // a deadline expired: goroutines of this schedule may linger, later schedules would be unreliable
 }
 
 func vContains(l []int, x int) bool {
@@ -813,6 +824,7 @@ func vSchedule(out *vOut, rng *vRand, nr int, split bool) vSched {
 		cfg.splitIDs = true
 	}
 	cfg.itemsSizer = (cfg.batch && !cfg.legacy) || rng.Intn(100) < 40
+	cfg.signal, cfg.timeout = rng.Intn(3), rng.Intn(100) < 30
 	if cfg.persistent {
 		cfg.faultSize = rng.Intn(100) < 35
 		cfg.faultClose = rng.Intn(100) < 35
@@ -955,7 +967,12 @@ func vSchedule(out *vOut, rng *vRand, nr int, split bool) vSched {
 			if o == 1 && cfg.mode == 1 && !shutdownCalled {
 				backoff[c.ids[0]] = true
 			}
-			c.gate <- o
+			if o == 1 && cfg.mode == 1 && rng.Intn(3) == 0 {
+				out.Stat("outcome_throttled", 1)
+				c.gate <- 3 // same as transient for the model: the back-off is long either way
+			} else {
+				c.gate <- o
+			}
 			ok = endPhase(fmt.Sprintf("(1, %d, %d)", cfg.vReqIDs(c.ids)[0], o))
 		case 2:
 			// persistent queue: a consumer woken from its back-off by close(stopCh) races with the queue's
@@ -1084,6 +1101,7 @@ func vSchedule(out *vOut, rng *vRand, nr int, split bool) vSched {
 		out.Stat("race_observed_m", m)
 	}
 	res.term = fmt.Sprintf("(%s, %s, (%s, %d))", cfg.term(), vList(phases), vIDs(cfg.vReqIDs(stored)), helpers)
+	res.complete = ok
 
 	// ---- direct oracle on the ordered event log ----------------------------------------------------
 	if ok {
@@ -1133,6 +1151,10 @@ func vSchedule(out *vOut, rng *vRand, nr int, split bool) vSched {
 		out.Stat("cfg_batcher_without_queue", 1)
 	}
 	out.Stat(fmt.Sprintf("cfg_retry_mode_%d", cfg.mode), 1)
+	out.Stat(fmt.Sprintf("cfg_signal_%d", cfg.signal), 1)
+	if cfg.timeout {
+		out.Stat("cfg_timeout_sender", 1)
+	}
 	if cfg.faultSize && cfg.persistent && cfg.itemsSizer {
 		out.Stat("cfg_fault_queue_size_write", 1)
 	}
@@ -1186,6 +1208,7 @@ func vStress(out *vOut, rng *vRand, nr int) (failed, abort bool) {
 		cfg.capacity = 3 + rng.Intn(6)
 	}
 	cfg.itemsSizer = (cfg.batch && !cfg.legacy) || rng.Intn(100) < 40
+	cfg.signal, cfg.timeout = rng.Intn(3), rng.Intn(100) < 30
 	if cfg.persistent {
 		cfg.faultSize = rng.Intn(100) < 35
 		cfg.faultClose = rng.Intn(100) < 35
@@ -1348,7 +1371,7 @@ func vStress(out *vOut, rng *vRand, nr int) (failed, abort bool) {
 //	begin-after-return        an export attempt began after Shutdown returned (or after the wrapped exporter's shutdown)
 //	work-after-return         every call answered, yet a Send is still inside the retry sender after Shutdown returned
 func vDirect(out *vOut, rng *vRand, nr int) (failed, abort bool) {
-	cfg := vCfg{direct: true, mode: rng.Pick(15, 45, 25, 15), consumers: 1}
+	cfg := vCfg{direct: true, mode: rng.Pick(15, 45, 25, 15), consumers: 1, signal: rng.Intn(3), timeout: rng.Intn(100) < 30}
 	st := &vStorage{m: map[string][]byte{}}
 	h, err := vNewRun(cfg, st, false)
 	if err != nil {
@@ -1434,7 +1457,11 @@ func vDirect(out *vOut, rng *vRand, nr int) (failed, abort bool) {
 			sort.Slice(infl, func(a, b int) bool { return infl[a].ids[0] < infl[b].ids[0] })
 			c := infl[rng.Intn(len(infl))]
 			o := rng.Pick(40, 45, 15)
-			c.gate <- o
+			if o == 1 && cfg.mode == 1 && rng.Intn(3) == 0 {
+				c.gate <- 3 // throttled transient failure
+			} else {
+				c.gate <- o
+			}
 			ok = step(fmt.Sprintf("release(%d,%d)", c.ids[0], o), fmt.Sprintf("(1, %d, %d)", c.ids[0], o))
 		case 2:
 			shutdownCalled = true
@@ -1451,6 +1478,11 @@ func vDirect(out *vOut, rng *vRand, nr int) (failed, abort bool) {
 				h.log(2, nil, 0)
 			}()
 			ok = step("Shutdown", "(2, 0, 0)")
+			h.mu.Lock()
+			if h.returned && len(h.inflight) > 0 {
+				out.Stat("direct_return_with_call_open", 1) // the witness of calls_returned_without_queue_refuted
+			}
+			h.mu.Unlock()
 			if cancelLater != nil {
 				cancelLater()
 			}
@@ -1507,13 +1539,67 @@ func vDirect(out *vOut, rng *vRand, nr int) (failed, abort bool) {
 		return failed, true
 	}
 	h.releaseAll()
+	out.Case(true, fmt.Sprintf("(%s, %s, ([], 0))", cfg.term(), vList(phases))) // also when the oracle failed
 	if !failed {
-		out.Case(true, fmt.Sprintf("(%s, %s, ([], 0))", cfg.term(), vList(phases)))
 		out.Stat("direct_schedules_compared", 1)
 	}
 	out.Stat("direct_schedules", 1)
 	out.Stat(fmt.Sprintf("direct_retry_mode_%d", cfg.mode), 1)
 	return failed, false
+}
+
+// vTimerRace: Shutdown is called at the moment the batcher's flush timer fires (flush_timeout 1 ms, one
+// request waiting in the current batch, self-answering backend): the timer-driven flush and the final flush
+// of Shutdown race for the batch.  Whoever takes it, the export must have begun AND ended before Shutdown
+// returns.  Oracle-only; many cheap iterations, the offset of the call is swept around the timer's deadline.
+func vTimerRace(out *vOut, rng *vRand, nr int) (failed, abort bool) {
+	cfg := vCfg{batch: true, timer: true, flush: time.Millisecond, min: 1000, mode: rng.Intn(2), consumers: 1,
+		legacy: rng.Intn(100) < 30, persistent: rng.Intn(100) < 30, signal: rng.Intn(3)}
+	cfg.itemsSizer = !cfg.legacy
+	st := &vStorage{m: map[string][]byte{}}
+	h, err := vNewRun(cfg, st, true)
+	if err != nil {
+		out.Oracle("harness-setup", "([8], [], ([], 0))", err.Error())
+		return true, false
+	}
+	fail := func(kind, detail string) {
+		failed = true
+		out.Oracle(kind, "([8], [], ([], 0))", fmt.Sprintf("%s  [timer race #%d cfg=%+v]", detail, nr, cfg))
+		vFlush(out)
+	}
+	t0 := time.Now()
+	if !h.offer([]int{1}, 1) {
+		fail("harness-setup", "offer refused")
+		return true, false
+	}
+	// busy-wait (no timer of our own) until just around the flush deadline
+	target := time.Duration(700+rng.Intn(600)) * time.Microsecond
+	for time.Since(t0) < target {
+		runtime.Gosched()
+	}
+	h.log(7, nil, 0)
+	done := make(chan struct{})
+	go func() { _ = h.be.Shutdown(context.Background()); h.log(2, nil, 0); close(done) }()
+	select {
+	case <-done:
+	case <-time.After(30 * time.Second):
+		fail("shutdown-hangs", "Shutdown did not return within 30 s")
+		return true, true
+	}
+	helpers := 0
+	for deadline := time.Now().Add(10 * time.Second); ; {
+		if _, helpers, _ = h.snapshot(); helpers == 0 || time.Now().After(deadline) {
+			break
+		}
+		time.Sleep(50 * time.Microsecond)
+	}
+	stored := st.storedIDs()
+	if !cfg.persistent {
+		stored = nil
+	}
+	vOracle(h, cfg, st, []int{1}, stored, helpers, fail)
+	out.Stat("timer_race_schedules", 1)
+	return failed, helpers != 0
 }
 
 func TestVerifC03(t *testing.T) {
@@ -1528,6 +1614,9 @@ func TestVerifC03(t *testing.T) {
 	for k := 0; k < n; k++ {
 		r := vSchedule(out, rng, k, false)
 		if r.abort {
+			if r.complete { // the observation of the offending schedule still goes to the clause checker in Coq
+				out.Case(true, r.term)
+			}
 			out.Stat("schedules_failed", 1)
 			out.Stat("run_aborted_after_deadline", 1)
 			return
@@ -1535,6 +1624,9 @@ func TestVerifC03(t *testing.T) {
 		switch {
 		case r.failed:
 			out.Stat("schedules_failed", 1)
+			if r.complete { // the observation still goes to Coq: the clause checker there is an independent oracle
+				out.Case(true, r.term)
+			}
 		case r.racy:
 			out.Stat("schedules_with_observed_race", 1)
 			out.Case(true, r.term)
@@ -1551,12 +1643,18 @@ func TestVerifC03(t *testing.T) {
 	for k, np := 0, vBudget(300, 20); k < np; k++ {
 		r := vSchedule(out, prng, k, true)
 		if r.abort {
+			if r.complete {
+				out.Case(true, r.term)
+			}
 			out.Stat("schedules_failed", 1)
 			out.Stat("run_aborted_after_deadline", 1)
 			return
 		}
 		if r.failed {
 			out.Stat("split_schedules_failed", 1)
+			if r.complete {
+				out.Case(true, r.term)
+			}
 		} else {
 			out.Case(strings.Contains(r.term, "(1, "), r.term)
 			out.Stat("split_schedules_compared", 1)
@@ -1569,6 +1667,18 @@ func TestVerifC03(t *testing.T) {
 		f, abort := vDirect(out, drng, k)
 		if f {
 			out.Stat("direct_failed", 1)
+		}
+		if abort {
+			out.Stat("run_aborted_after_deadline", 1)
+			return
+		}
+	}
+	// Shutdown racing with the flush timer (oracle-only)
+	trng := vNewRand(33333)
+	for k, nt := 0, vBudget(300, 20); k < nt; k++ {
+		f, abort := vTimerRace(out, trng, k)
+		if f {
+			out.Stat("timer_race_failed", 1)
 		}
 		if abort {
 			out.Stat("run_aborted_after_deadline", 1)
